@@ -10,12 +10,16 @@
 package x04
 
 import (
+	"bufio"
+	"bytes"
 	"encoding/json"
 	"fmt"
 	"math/rand"
 	"os"
+	"os/exec"
 	"sort"
 	"strconv"
+	"strings"
 	"testing"
 	"testing/synctest"
 
@@ -41,16 +45,16 @@ type dObj struct {
 }
 
 type traceLine struct {
-	Ev   string     `json:"ev"`
-	K    string     `json:"k"`
-	O    int        `json:"o"`
-	V    string     `json:"v"`
-	X    int        `json:"x"`
-	Out  []pktT     `json:"out"`
-	Done [][2]any   `json:"done"`
-	Del  []string   `json:"del"`
-	Dead bool       `json:"dead"`
-	Hc   []string   `json:"hc"`
+	Ev   string   `json:"ev"`
+	K    string   `json:"k"`
+	O    int      `json:"o"`
+	V    string   `json:"v"`
+	X    int      `json:"x"`
+	Out  []pktT   `json:"out"`
+	Done [][2]any `json:"done"`
+	Del  []string `json:"del"`
+	Dead bool     `json:"dead"`
+	Hc   []string `json:"hc"`
 }
 
 type driver struct {
@@ -185,7 +189,7 @@ func (d *driver) do(e evT) error {
 	callBefore := w.ncalls
 	nobjBefore := len(w.objs)
 	if err := w.perform(e, d.rng.Intn(6)); err != nil {
-		return err
+		return errAbort{err}
 	}
 	obs, err := w.observe()
 	if err != nil {
@@ -317,6 +321,11 @@ func (d *driver) do(e evT) error {
 	return nil
 }
 
+// errAbort: the driver's books and the harness's disagree (an event the driver believes possible cannot be
+// performed).  On the unchanged code this is a bug of the harness; with a deviating client it is a consequence of the
+// deviation, which the recorded trace up to this point shows -- so the trace is kept and judged by the specification.
+type errAbort struct{ error }
+
 func runSession(t *testing.T, seed int64, transport string, steps int) (lines []traceLine, problem string, infra error) {
 	synctest.Test(t, func(t *testing.T) {
 		w, err := newWorld(transport)
@@ -344,6 +353,10 @@ func runSession(t *testing.T, seed int64, transport string, steps int) (lines []
 				c = []cand{{evT{K: []string{"peereof", "garbage", "disc", "cclose"}[d.rng.Intn(4)]}, 1}}
 			}
 			if err := d.do(d.pick(c)); err != nil {
+				if _, ok := err.(errAbort); ok {
+					lines, problem = d.lines, "abort:"+err.Error()
+					return
+				}
 				infra = err
 				return
 			}
@@ -379,6 +392,62 @@ func runSession(t *testing.T, seed int64, transport string, steps int) (lines []
 
 var vutilRekeys int
 
+type longReport struct {
+	Session   int         `json:"session"`
+	Seed      int64       `json:"seed"`
+	Transport string      `json:"transport"`
+	Problem   string      `json:"problem,omitempty"`
+	Infra     string      `json:"infra,omitempty"`
+	Lines     []traceLine `json:"lines"`
+}
+
+func sessionParams(i int) (int64, string) {
+	transport := "ctl"
+	if i%2 == 1 {
+		transport = "enc"
+	}
+	return vutil.Seed()*100003 + int64(i), transport
+}
+
+// TestLongChild runs sessions START.. and appends one report line per session; a goroutine left blocked inside
+// package ssh (or a panic) kills this process, the parent classifies the crash.
+func TestLongChild(t *testing.T) {
+	if os.Getenv("VERIF_X04_CHILD") != "long" {
+		t.Skip("child only")
+	}
+	start, _ := strconv.Atoi(os.Getenv("VERIF_X04_START"))
+	n, _ := strconv.Atoi(vutil.Env("VERIF_X04_LONG", "20"))
+	steps, _ := strconv.Atoi(vutil.Env("VERIF_X04_LONG_STEPS", "70"))
+	prog, err := os.OpenFile(os.Getenv("VERIF_X04_PROGRESS"), os.O_CREATE|os.O_WRONLY, 0o644)
+	if err != nil {
+		t.Fatal(err)
+	}
+	rep, err := os.OpenFile(os.Getenv("VERIF_X04_REPORT"), os.O_CREATE|os.O_WRONLY|os.O_APPEND, 0o644)
+	if err != nil {
+		t.Fatal(err)
+	}
+	defer rep.Close()
+	startWatchdog(watchdogLimit())
+	for i := start; i < n; i++ {
+		prog.WriteAt([]byte(fmt.Sprintf("%-12d", i)), 0)
+		watchdogProgress(i)
+		seed, transport := sessionParams(i)
+		lines, problem, infra := runSession(t, seed, transport, steps)
+		r := longReport{Session: i, Seed: seed, Transport: transport, Problem: problem, Lines: lines}
+		if infra != nil {
+			r.Infra = infra.Error()
+		}
+		b, err := json.Marshal(r)
+		if err != nil {
+			t.Fatal(err)
+		}
+		rep.Write(append(b, '\n'))
+	}
+	b, _ := json.Marshal(map[string]int{"rekeys": vutilRekeys})
+	os.WriteFile(os.Getenv("VERIF_X04_REPORT")+".stats", b, 0o644)
+	prog.WriteAt([]byte(fmt.Sprintf("%-12s", "done")), 0)
+}
+
 func TestLong(t *testing.T) {
 	out := vutil.NewOut()
 	defer func() {
@@ -387,7 +456,6 @@ func TestLong(t *testing.T) {
 		}
 	}()
 	n, _ := strconv.Atoi(vutil.Env("VERIF_X04_LONG", "20"))
-	steps, _ := strconv.Atoi(vutil.Env("VERIF_X04_LONG_STEPS", "70"))
 	var fh *os.File
 	if p := os.Getenv("VERIF_TRACE_OUT"); p != "" {
 		var err error
@@ -396,36 +464,86 @@ func TestLong(t *testing.T) {
 		}
 		defer fh.Close()
 	}
+	dir := t.TempDir()
+	progress, report := dir+"/progress", dir+"/report.ndjson"
+	start, crashes := 0, 0
+	for start < n {
+		os.WriteFile(progress, []byte(fmt.Sprintf("%-12d", -1)), 0o644)
+		cmd := exec.Command(os.Args[0], "-test.run=^TestLongChild$", "-test.timeout=1400s")
+		cmd.Env = append(os.Environ(), "VERIF_X04_CHILD=long", "VERIF_X04_START="+strconv.Itoa(start), "VERIF_X04_PROGRESS="+progress, "VERIF_X04_REPORT="+report)
+		var buf bytes.Buffer
+		cmd.Stdout, cmd.Stderr = &buf, &buf
+		err := cmd.Run()
+		pb, _ := os.ReadFile(progress)
+		ps := strings.TrimSpace(string(pb))
+		if ps == "done" {
+			break
+		}
+		last, _ := strconv.Atoi(ps)
+		if err == nil || last < start {
+			t.Fatalf("x04 long child stopped at %q without finishing (err=%v):\n%s", ps, err, tail(buf.String(), 4000))
+		}
+		sig, what, verdict := classifyCrash(buf.String())
+		if f, ok := hangOf(buf.String()); ok {
+			sig, what, verdict = "clientlife-hang:"+f, "the client never became quiescent: a goroutine waits for a lock inside package ssh ("+f+") while nothing is running", true
+		}
+		if !verdict {
+			t.Fatalf("x04 long child crashed at session %d, not attributable to package ssh (%s):\n%s", last, what, tail(buf.String(), 6000))
+		}
+		seed, transport := sessionParams(last)
+		out.Violation(sig, "long session on the real ssh.Client: "+what, map[string]any{"seed": seed, "transport": transport, "session": last, "crash": tail(buf.String(), 3000)})
+		t.Errorf("%s at long session %d: %s", sig, last, what)
+		crashes++
+		if crashes > 10 {
+			break
+		}
+		start = last + 1
+	}
 	events := 0
-	for i := 0; i < n; i++ {
-		transport := "ctl"
-		if i%2 == 1 {
-			transport = "enc"
-		}
-		seed := vutil.Seed()*100003 + int64(i)
-		lines, problem, infra := runSession(t, seed, transport, steps)
-		if infra != nil {
-			t.Fatalf("x04 long session %d (%s): %v", i, transport, infra)
-		}
-		out.Case(fmt.Sprintf("%s/%d", transport, seed))
-		events += len(lines)
-		if problem != "" {
-			sig := "clientlife-long:" + problem
-			if len(sig) > 90 {
-				sig = sig[:90]
+	var aborted []string
+	if rf, err := os.Open(report); err == nil {
+		defer rf.Close()
+		sc := bufio.NewScanner(rf)
+		sc.Buffer(make([]byte, 1<<20), 1<<28)
+		for sc.Scan() {
+			var r longReport
+			if err := json.Unmarshal(sc.Bytes(), &r); err != nil {
+				t.Fatalf("bad report line: %v", err)
 			}
-			out.Violation(sig, "long session on the real ssh.Client: "+problem, map[string]any{"seed": seed, "transport": transport, "trace": lines})
-			t.Errorf("session %d: %s", i, problem)
-			continue
-		}
-		if fh != nil {
-			b, err := json.Marshal(lines)
-			if err != nil {
-				t.Fatal(err)
+			if r.Infra != "" {
+				t.Fatalf("x04 long session %d (%s): %s", r.Session, r.Transport, r.Infra)
 			}
-			fh.Write(append(b, '\n'))
+			out.Case(fmt.Sprintf("%s/%d", r.Transport, r.Seed))
+			events += len(r.Lines)
+			if strings.HasPrefix(r.Problem, "abort:") {
+				aborted = append(aborted, fmt.Sprintf("session %d (%s, seed %d): %s", r.Session, r.Transport, r.Seed, r.Problem))
+				r.Problem = ""
+			}
+			if r.Problem != "" {
+				sig := "clientlife-long:" + r.Problem
+				if len(sig) > 90 {
+					sig = sig[:90]
+				}
+				out.Violation(sig, "long session on the real ssh.Client: "+r.Problem, map[string]any{"seed": r.Seed, "transport": r.Transport, "trace": r.Lines})
+				t.Errorf("session %d: %s", r.Session, r.Problem)
+				continue
+			}
+			if fh != nil {
+				b, err := json.Marshal(r.Lines)
+				if err != nil {
+					t.Fatal(err)
+				}
+				fh.Write(append(b, '\n'))
+			}
 		}
 	}
 	out.Extra["long_session_events"] = events
-	out.Extra["long_session_rekeys"] = vutilRekeys
+	out.Extra["long_child_crashes"] = crashes
+	out.Extra["long_sessions_aborted"] = aborted
+	if b, err := os.ReadFile(report + ".stats"); err == nil {
+		var st map[string]int
+		if json.Unmarshal(b, &st) == nil {
+			out.Extra["long_session_rekeys"] = st["rekeys"]
+		}
+	}
 }
